@@ -1,6 +1,7 @@
 //! Verification harness for a4lg/ffuzzy: drives the real API and records what it
 //! returned (trace validation), or replays TLC-generated scenarios.  It contains no
 //! expected values: every judgement is made by TLC against the TLA+ specification.
+mod c14;
 mod cmp;
 mod gen;
 mod hashes;
@@ -81,6 +82,10 @@ fn main() {
                     std::process::exit(2);
                 }
             }
+        }
+        "c14" => {
+            let w = words::load("/verif/corpus/trigger_words.json");
+            c14::drive_c14(&args, &w);
         }
         "hashes" => {
             let w = words::load("/verif/corpus/trigger_words.json");
